@@ -1,5 +1,5 @@
 (** C12 - Initialisation from an initsync sequence is complete, exclusive and one-shot. *)
-From Hermes Require Import Model.Objects Model.Client Model.Init Proofs.Init.
+From Hermes Require Import Model.Objects Model.Server Model.Client Model.Init Proofs.Server Proofs.Init Proofs.Initsync.
 
 (** The scan loop of the client (mutable start marker, early exit) returns exactly the oldest /
     the newest element of the declaratively defined list of complete sequences, for every bus:
@@ -54,6 +54,13 @@ Theorem C12_base_skips_initsync : forall c outcome st next evs,
   Forall is_init evs -> fst (base_events c outcome st next evs) = st.
 Proof. exact base_skips_initsync. Qed.
 Print Assumptions C12_base_skips_initsync.
+
+(** server side: replaying an initsync sequence from nothing yields, object by object, the
+    published cache without its secret attributes - the state at the moment it was requested *)
+Theorem C12_initsync_is_published_state : forall c cache,
+  cfg_ok c -> replay (ev_initsync c cache) ∅ = pub c cache.
+Proof. exact initsync_is_published_state. Qed.
+Print Assumptions C12_initsync_is_published_state.
 
 (** non-vacuity: a bus with a truncated sequence, a complete one and a later complete one *)
 Definition ex_ev : cev := CEv 1 1 (KAdded ∅) 0 0 false.
